@@ -182,6 +182,17 @@ theorem C19_clocktime_add_sub (t : ClockTime ℝ) (x : ℝ) (ht : WF t) (hx : 0 
   rw [h2, h1]; ring
 
 open ClockTime in
+/-- the compound assignments `t += x`, `t -= x` are the binary operators (so they keep the fraction in [0, 1) and
+    `t += x; t -= x` returns the original time); `t += n`, `t -= n` (whole ticks) leave the fraction alone. -/
+theorem C19_clocktime_assign (t : ClockTime ℝ) (x : ℝ) (n : Nat) (ht : WF t) :
+    addAssignF64 t x = addF64 t x ∧ subAssignF64 t x = subF64 t x
+      ∧ WF (addAssignF64 t x) ∧ WF (subAssignF64 t x)
+      ∧ (0 ≤ x → val (subAssignF64 (addAssignF64 t x) x) = val t)
+      ∧ addAssignU64 t n = addU64 t n ∧ subAssignU64 t n = subU64 t n ∧ WF (addAssignU64 t n) :=
+  ⟨rfl, rfl, (C19_clocktime_fraction t x ht).1, (C19_clocktime_fraction t x ht).2,
+   fun hx => C19_clocktime_add_sub t x ht hx, rfl, rfl, ht⟩
+
+open ClockTime in
 /-- subtraction never wraps below zero: subtracting more than the time saturates the ticks at 0. -/
 theorem C19_clocktime_no_wrap (t : ClockTime ℝ) (x : ℝ) (ht : WF t) (hx : val t < x) :
     (subF64 t x).ticks = 0 := by
